@@ -304,12 +304,12 @@ class DurationTypeIO(GraphSONTypeIO):
     cql_type = 'duration'
 
     _duration_regex = re.compile(r"""
-        ^P((?P<days>\d+)D)?
+        ^(?P<sign>-)?P((?P<days>\d+)D)?
         T((?P<hours>\d+)H)?
         ((?P<minutes>\d+)M)?
         ((?P<seconds>[0-9.]+)S)?$
     """, re.VERBOSE)
-    _duration_format = "P{days}DT{hours}H{minutes}M{seconds}S"
+    _duration_format = "{sign}P{days}DT{hours}H{minutes}M{seconds}S"
 
     _seconds_in_minute = 60
     _seconds_in_hour = 60 * _seconds_in_minute
@@ -317,14 +317,22 @@ class DurationTypeIO(GraphSONTypeIO):
 
     @classmethod
     def serialize(cls, value, writer=None):
-        total_seconds = int(value.total_seconds())
+        # Exact integer arithmetic on the timedelta fields: the float total_seconds() loses microseconds on
+        # long durations. A negative duration is written as the negation of its absolute value (leading '-',
+        # as ISO-8601 and java.time.Duration.parse read it) instead of a negative days component.
+        micros = (value.days * cls._seconds_in_day + value.seconds) * 1000000 + value.microseconds
+        sign = '-' if micros < 0 else ''
+        total_seconds, micros = divmod(abs(micros), 1000000)
         days, total_seconds = divmod(total_seconds, cls._seconds_in_day)
         hours, total_seconds = divmod(total_seconds, cls._seconds_in_hour)
         minutes, total_seconds = divmod(total_seconds, cls._seconds_in_minute)
-        total_seconds += value.microseconds / 1e6
+        # plain decimal seconds, never an exponent ('1e-06'); at least one decimal as before ('37.0')
+        seconds = '{0}.{1:06d}'.format(total_seconds, micros).rstrip('0')
+        if seconds.endswith('.'):
+            seconds += '0'
 
         return cls._duration_format.format(
-            days=int(days), hours=int(hours), minutes=int(minutes), seconds=total_seconds
+            sign=sign, days=days, hours=hours, minutes=minutes, seconds=seconds
         )
 
     @classmethod
@@ -333,10 +341,12 @@ class DurationTypeIO(GraphSONTypeIO):
         if duration is None:
             raise ValueError('Invalid duration: {0}'.format(value))
 
+        negative = duration.group('sign') is not None
         duration = {k: float(v) if v is not None else 0
-                    for k, v in duration.groupdict().items()}
-        return datetime.timedelta(days=duration['days'], hours=duration['hours'],
-                                  minutes=duration['minutes'], seconds=duration['seconds'])
+                    for k, v in duration.groupdict().items() if k != 'sign'}
+        result = datetime.timedelta(days=duration['days'], hours=duration['hours'],
+                                    minutes=duration['minutes'], seconds=duration['seconds'])
+        return -result if negative else result
 
 
 class DseDurationTypeIO(GraphSONTypeIO):
